@@ -36,7 +36,11 @@ def concretise(ob, model):
     for op in ('/', '%', '<<', '>>', '+', '*'):
         decls.append("enum e { A = %s %s %s };" % (lit(l), op, lit(r)))
         decls.append("int a[%s %s %s];" % (lit(abs(l) + 1), op, lit(r)))
-    decls += ["#define X 08\n", "#define X abc\n", "#define X 0xg\n", "static const int X = 09;"]
+    tok = model.get('token')
+    if isinstance(tok, str) and tok and '\n' not in tok:
+        decls += ["int a[%s];" % tok, "enum e { A = %s };" % tok]
+    decls += ["int a[0x1p3];", "enum e { A = 0x1.p3 };", "struct s { int a:0X1P2; };", "int a[0x.8p1];", "int a[1.5e3];",
+              "#define X 08\n", "#define X abc\n", "#define X 0xg\n", "static const int X = 09;"]
     return REPLAY % dict(decls=decls)
 
 
